@@ -1878,6 +1878,29 @@ def run(ctx):
         t, o = ln.split(), d.split()
         if not (o and o[0] == "ok" and int(o[1]) == 2 * int(t[1]) and int(o[2]) == int(t[2]) and int(o[3]) == 2 * int(t[1]) * int(t[2])):
             shape_bad.append((ln, d))
+    # stage 2c: the same inputs through a plain optimised build (no sanitizer, NDEBUG): address reuse and
+    # optimisation-dependent paths the instrumented build hides.  Only inputs on which the instrumented run was
+    # clean are replayed (with NDEBUG an out-of-range access would be silent undefined behaviour).
+    opt_n = 0
+    if not ctx.replay:
+        import copy
+        vlib.LIB_FLAGS.setdefault("opt", "-O2 -g0 -DNDEBUG -DBFL_VERIF")
+        obin = vlib.build_harness("h_models", kind="opt")
+        sub = [c for c in cases if not c.probs and c.op not in ("lti_state", "lti_meas", "linmodel") and not (c.hout or "").startswith("crash")]
+        if ctx.quick():
+            sub = sub[::2]
+        oout, ologs = vlib.run_harness(obin, [c.line for c in sub], env={"ASAN_OPTIONS": ""})
+        opt_n = len(sub)
+        for c, h in zip(sub, oout):
+            c2 = Case(c.op, c.line, copy.deepcopy(c.meta))
+            c2.hout = h
+            try:
+                BY_OP[c.op][2](c2, {})
+            except (ValueError, IndexError, OverflowError) as e:
+                c2.probs.append(("prop", "impl-output-not-finite", "%s: unreadable output of the optimised build (%s): %s" % (c.op, e, h[:80])))
+            for kind, k, w in c2.probs:
+                if kind == "prop":
+                    c.probs.append(("prop", k, "[plain -O2 build, no sanitizer] " + w))
     # decision
     prop_bad = [(c, k, w) for c in cases for (kind, k, w) in c.probs if kind == "prop"]
     corr_bad = [(c, k, w) for c in cases for (kind, k, w) in c.probs if kind == "corr"]
@@ -1929,7 +1952,7 @@ def run(ctx):
         "samples": [cases[0].line[:300], cases[len(cases) // 2].line[:300], cases[-1].line[:300]],
         "section_sizes": per_section, "case_histogram": hist, "model_branches_hit": dict(br, **{k: v for k, v in stats.items() if isinstance(v, dict)}),
         "numeric": {k: v for k, v in stats.items() if not isinstance(v, dict)},
-        "traces_validated_against_impl": len(todo),
+        "traces_validated_against_impl": len(todo), "cases_repeated_on_plain_optimised_build": opt_n,
         "exhaustive": not ctx.replay,
         "exhaustive_bound": "every pair of shapes (r1 x c1, r2 x c2) with r, c in 0..%d for LTIStateModel, LTIMeasurementModel and LinearModel "
                             "(accept/reject compared with lti_ctor_iff / linear_H_selects for each), every Dim, and the finite sub-spaces listed under "
